@@ -18,6 +18,25 @@ GOENV["GOPROXY"] = "off"
 GOENV.pop("GOSUMDB", None)
 GOENV.pop("GOTOOLCHAIN", None)
 
+# VERIF_REPO=<dir> points the harness build at another checkout of
+# lightninglabs/neutrino (a scratch worktree with a seeded change) instead of
+# /repo; evidence is then not written.  Registered commands never set it.
+ALT_REPO = os.environ.get("VERIF_REPO")
+
+
+def modfile_args():
+    if not ALT_REPO:
+        return [], ""
+    import hashlib
+    tag = hashlib.sha1(ALT_REPO.encode()).hexdigest()[:8]
+    d = os.path.join(WORK, "altmod-" + tag)
+    os.makedirs(d, exist_ok=True)
+    gm = open(os.path.join(HARNESS, "go.mod")).read().replace("=> /repo/cache", "=> %s/cache" % ALT_REPO).replace("=> /repo", "=> %s" % ALT_REPO)
+    open(os.path.join(d, "go.mod"), "w").write(gm)
+    shutil.copy(os.path.join(HARNESS, "go.sum"), os.path.join(d, "go.sum"))
+    return ["-modfile=" + os.path.join(d, "go.mod")], "-" + tag
+
+
 ALLOWED_AXIOMS = set()  # names of standard-library axioms a theorem may use (none so far)
 
 
@@ -176,10 +195,12 @@ def run_cases(outdir):
 # ----------------------------------------------------------------------
 
 def load_known():
-    p = os.path.join(ROOT, "KNOWN_FINDINGS.json")
-    if not os.path.exists(p):
-        return []
-    return json.load(open(p))["findings"]
+    """KNOWN_FINDINGS.json plus known_findings/*.json (same format), all committed."""
+    out = []
+    for p in [os.path.join(ROOT, "KNOWN_FINDINGS.json")] + sorted(glob.glob(os.path.join(ROOT, "known_findings", "*.json"))):
+        if os.path.exists(p):
+            out += json.load(open(p))["findings"]
+    return out
 
 
 def write_replay(prop, name, payload):
@@ -228,9 +249,14 @@ def main(argv):
     shutil.rmtree(outdir, ignore_errors=True)
     os.makedirs(outdir, exist_ok=True)
     os.makedirs(os.path.join(WORK, "bin"), exist_ok=True)
-    binp = os.path.join(WORK, "bin", cfg["harness"])
-    with Lock("gobuild-" + cfg["harness"]):
-        rc, out = sh(["go", "build", "-tags", "verif", "-o", binp, "./cmd/" + cfg["harness"]],
+    mf, suffix = modfile_args()
+    binp = os.path.join(WORK, "bin", cfg["harness"] + suffix)
+    if suffix:
+        outdir = outdir + suffix
+        shutil.rmtree(outdir, ignore_errors=True)
+        os.makedirs(outdir, exist_ok=True)
+    with Lock("gobuild-" + cfg["harness"] + suffix):
+        rc, out = sh(["go", "build"] + mf + ["-tags", "verif", "-o", binp, "./cmd/" + cfg["harness"]],
                      cwd=HARNESS, env=GOENV, timeout=1200)
     report = None
     rows = []
@@ -342,7 +368,7 @@ def main(argv):
         "assumptions": cfg.get("assumptions", []),
         "wall_s": round(wall, 2), "violations": len(violations),
     }
-    if not a.replay:
+    if not a.replay and not ALT_REPO:
         os.makedirs(EVIDENCE, exist_ok=True)
         json.dump(ev, open(os.path.join(EVIDENCE, prop + ".json"), "w"), indent=1)
 
